@@ -99,3 +99,24 @@ Proof.
   split; [repeat constructor; unfold tx_ok; simpl; discriminate|].
   vm_compute. repeat split; reflexivity.
 Qed.
+
+(* non-vacuity of the NotaryAssisted fee flow: a P2PNotary node is designated, account 2 deposits 5 GAS, then the
+   Notary contract (account 4) sends a transaction for payer 2 with NKeys = 1: 1.3 GAS of fees are burnt from the
+   contract and charged to the deposit, the primary gets the network fee less 2 x 0.1 GAS, the notary node gets those *)
+Definition ex_na_blocks : list (list tx) :=
+  [ [ mkTx 0 100000000 1000000 [] (OGasT 0 2 300000000000 DNone) true (Some true) ];
+    [ mkTx 0 100000000 1000000 [0;1;2]%N (ODesignate 32 [1]%N) true None;
+      mkTx 2 100000000 1000000 [] (OGasT 2 4 500000000 (DDeposit None 100)) true (Some true) ];
+    [ mkTxA 4 100000000 30000000 [] (OGasT 2 1 7 DNone) true (Some true) (Some (1, 2%N)) ] ].
+Example C05_example_notary :
+  blocks_ok ex_cfg ex_na_blocks
+  /\ notary_nodes (reach ex_cfg ex_na_blocks) = [1%N]
+  /\ damt (dep_of (reach ex_cfg ex_na_blocks) 2) = 370000000
+  /\ gas_bal (reach ex_cfg ex_na_blocks) 4 = 370000000
+  /\ gas_bal (reach ex_cfg ex_na_blocks) 2 = gas_bal (reach ex_cfg (firstn 2 ex_na_blocks)) 2 - 7 + 20000000
+  /\ l_gas_total (L (reach ex_cfg ex_na_blocks))
+     = l_gas_total (L (reach ex_cfg (firstn 2 ex_na_blocks))) - 130000000 + 10000000 + 20000000 + 50000000.
+Proof.
+  split; [repeat constructor; unfold tx_ok; simpl; discriminate|].
+  vm_compute. repeat split; reflexivity.
+Qed.
